@@ -171,6 +171,39 @@ class ExposureMonitor(Monitor):
     def on_control_error(self, control, order, error):
         self.last_refusal = (control.NAME, str(error))
 
+    # ---- boundary-seeking agents: the size that puts the selection's potential exposure just outside / just inside the
+    # band around the limit in which either verdict is accepted (own calculator, own journal of fills)
+    def boundary_size(self, market, strategy, sel, side, price, mode):
+        import math
+
+        mtype, div, mk = self._market_info(market.market_id)
+        ls = strategy.max_selection_exposure
+        if ls is None or mtype == "EACH_WAY" or mk.get("line") or not price or price <= 1.0:
+            return None
+        outcome = "lose" if side == "BACK" else "win"
+        others = [r for r in self._recs(market, strategy, sel) if r["status"] not in UNACK]
+        if any(r["line"] for r in others):
+            return None
+        tol = self._tol(others)
+        unit = 1.0 if side == "BACK" else (price - 1.0)
+        if mode == "over":
+            cur = -sum(order_pl_worst(r, outcome) for r in others)
+            need = ls + tol + BAND + 0.002 - cur
+            size = math.ceil(need / unit * 100.0 - 1e-9) / 100.0
+            if cur + size * unit <= ls + tol + BAND:
+                size = round(size + 0.01, 2)
+        else:
+            cur = -sum(order_pl_worst(r, outcome, conservative=True) for r in others)
+            need = ls - tol - BAND - 0.002 - cur
+            size = math.floor(need / unit * 100.0 + 1e-9) / 100.0
+            if cur + size * unit >= ls - tol - BAND:
+                size = round(size - 0.01, 2)
+        size = round(size, 2)
+        if size < 0.01 or size > 200.0:
+            return None
+        self.res.probes["c01.boundary_seeking_order.%s" % mode] += 1
+        return size
+
     # ---- oracle 1: decision
     def on_request_before(self, kind, txn, order, a, k):
         self.pending = None
